@@ -55,7 +55,7 @@ def check_ans_one_word_per_symbol(ctx, F):
 
 def check_seal_bound(ctx, F):
     key = 'R5/seal-words-bound/' + RENC
-    role = 'sealing appends at most held-back + 2 words'
+    role = 'sealing appends at most held-back + State::BITS / Word::BITS words (2 for State = two Words)'
     parts = anchors.range_encoder_parts(F)
     b = parts.get('num_seal_words')
     if b is None:
@@ -73,14 +73,22 @@ def check_seal_bound(ctx, F):
                 return ctx.unresolved('R5', role, b.defpath, 'a path returns %s without testing the situation' % sym.show(r.ret)[:80], key=key)
             held = ('int', 0)
         d = sym.affine_sub(sym.affine(c07.canon_held(r.ret)), sym.affine(held))
-        if d[0]:
-            return ctx.unresolved('R5', role, b.defpath, 'return value %s is not held-back + constant' % sym.show(r.ret)[:80], key=key)
-        extra.add(d[1])
+        # what is added to the held-back words may depend on the two widths only (State::BITS / Word::BITS zero words for wide states)
+        import props.C11 as c11
+        for ratio in c11.RATIOS:
+            v = d[1]
+            for kx, (c, atom) in d[0].items():
+                a = c11._const_at(atom, ratio)
+                if a is None:
+                    return ctx.unresolved('R5', role, b.defpath, 'return value %s is not held-back + a constant of the type parameters' % sym.show(r.ret)[:80], key=key)
+                v += c * a
+            extra.add((ratio, v))
     if not extra:
         return ctx.unresolved('R5', role, b.defpath, 'no return path', key=key)
-    if max(extra) > 2 or min(extra) < 0:
-        return ctx.bad('R5', role, b.defpath, 'num_seal_words = held-back + %s' % sorted(extra), key=key, loc=rules.loc(b))
-    return ctx.ok('R5', role, b.defpath, 'num_seal_words = held-back + c with c in %s' % sorted(extra), key=key)
+    over = sorted((ratio, v) for ratio, v in extra if v > ratio or v < 0)
+    if over:
+        return ctx.bad('R5', role, b.defpath, 'num_seal_words = held-back + %d for State = %d Words: more than State::BITS / Word::BITS (or negative)' % (over[0][1], over[0][0]), key=key, loc=rules.loc(b))
+    return ctx.ok('R5', role, b.defpath, 'num_seal_words = held-back + c with 0 <= c <= State::BITS / Word::BITS (c in %s for State = 2 Words)' % sorted({v for ratio, v in extra if ratio == 2}), key=key)
 
 
 def check_export_bound(ctx, F):
